@@ -302,5 +302,64 @@ pub fn run(rep: &mut Report, thorough: bool) {
         &mut rep.sink,
     );
     rep.stage("observable", "corpus payloads x {UDP, TCP whole, TCP cut at every offset inside the signature} x 3 port pairs x {v4,v6}", scen.len() as u64, t0);
+    // the decision is made by the LEADING bytes of the stream: once they complete no signature,
+    // nothing that follows (in the same or in later segments) may be answered by a
+    // signature-dispatched responder; judged by the reference model on every segment
+    let t0 = std::time::Instant::now();
+    let garbage: Vec<Vec<u8>> = vec![
+        b"0123456789\r\n".to_vec(),
+        vec![0xff; 30],
+        b"XYZ /index HTTP/1.1\r\n\r\n".to_vec(),
+        b"Z".to_vec(),
+        b"123456789".to_vec(),
+        vec![0x01; 9],
+        b"GEX".to_vec(),
+        b"\r\n".to_vec(),
+    ];
+    let tcp_pls: Vec<&Payload> = pls.iter().filter(|p| p.via != Via::UdpOnly).collect();
+    // modes: 0 = garbage and request in one segment, 1 = two segments, 2 = garbage split in two + request,
+    // 3 = garbage byte by byte + request
+    let gdims = [garbage.len() as u64, tcp_pls.len() as u64, 4, 2];
+    let opts = RunOpts::new("leading-garbage").stateful().chunk(16).no_monitor();
+    let cookies2 = cookies.clone();
+    let cfgc = cfg.clone();
+    engine::run(
+        &cfg,
+        engine::product(&gdims),
+        &opts,
+        |i| {
+            let d = engine::unrank(i, &gdims);
+            let g = &garbage[d[0] as usize];
+            let pl = &tcp_pls[d[1] as usize].bytes;
+            let f = &flows[if d[3] == 0 { 0 } else { 3 }];
+            let c = cookies2.get(&key_of(f)).copied().unwrap_or(0).wrapping_add(1);
+            let seg = |off: usize, data: &[u8]| Cmd::Frame(f.tcp(1000 + off as u32, c, crate::wire::F_PSH | crate::wire::F_ACK, data));
+            match d[2] {
+                0 => vec![seg(0, &[g.clone(), pl.clone()].concat())],
+                1 => vec![seg(0, g), seg(g.len(), pl)],
+                2 => {
+                    let h = (g.len() / 2).max(1).min(g.len());
+                    let mut v = vec![seg(0, &g[..h])];
+                    if h < g.len() {
+                        v.push(seg(h, &g[h..]));
+                    }
+                    v.push(seg(g.len(), pl));
+                    v
+                }
+                _ => {
+                    let mut v: Vec<Cmd> = g.iter().enumerate().map(|(k, b)| seg(k, &[*b])).collect();
+                    v.push(seg(g.len(), pl));
+                    v
+                }
+            }
+        },
+        |it: &Item, sk: &mut Sink| {
+            let model = crate::model::Model::new();
+            engine::judge_item(&cfgc, &model, &cookies2, it, it.cmds.len(), "leading-garbage", sk);
+            sk.count("frames", it.cmds.len() as u64 - 1);
+        },
+        &mut rep.sink,
+    );
+    rep.stage("leading-garbage", "8 leading byte strings (some killing the matcher, some keeping it alive) x TCP payloads x 4 segmentations x {v4,v6}: judged by the reference stream model", engine::product(&gdims), t0);
     let _ = thorough;
 }
